@@ -56,8 +56,10 @@ const (
 var symNames = [...]string{"R", "S", "N", "Rc", "Rt", "Rm", "X", "Xt"}
 var symClass = [...]string{"retriable-error", "success", "non-retriable-error", "context-cancelled-during-attempt", "deadline-passed-during-attempt", "context-cancelled-mid-wait", "context-error-returned", "deadline-error-returned"}
 
-func (s sym) terminal() bool   { return s != symR }
-func (s sym) endsContext() bool { return s == symRc || s == symRt || s == symRm || s == symX || s == symXt }
+func (s sym) terminal() bool { return s != symR }
+func (s sym) endsContext() bool {
+	return s == symRc || s == symRt || s == symRm || s == symX || s == symXt
+}
 
 const raceReps = 64
 
@@ -102,7 +104,7 @@ func (p polA) alphabet() []sym {
 
 type caseA struct {
 	Pol    polA     `json:"policy"`
-	API    string   `json:"api"`  // RetryIf | RetryOnError
+	API    string   `json:"api"`              // RetryIf | RetryOnError
 	Ctx0   string   `json:"context_on_entry"` // live | cancelled | expired
 	Script []string `json:"script"`
 }
@@ -364,7 +366,7 @@ func exploreA(t *testing.T, p polA, api, ctx0 string, res *partAResult) {
 				violated = true
 				v := res.Viol[f.Sig]
 				if v == nil {
-					v = &violRec{Sig: f.Sig, Replay: map[string]any{"part": "A", "case": caseA{p, api, ctx0, symStrings(prefix)}, "detail": f.Detail, "invocations": r.M, "returned": fmt.Sprint(r.Err), "invocation_times": fmt.Sprint(r.Times), "run": k + 1, "note": "a case whose last symbol ends the context is run up to 64 times: the retry loop's select between a zero wait and ctx.Done() is a random choice of the Go runtime"}}
+					v = &violRec{Sig: f.Sig, Key: fmt.Sprintf("%02d|%d|%v", len(prefix), p.RetryMax, caseA{p, api, ctx0, symStrings(prefix)}), Replay: map[string]any{"part": "A", "case": caseA{p, api, ctx0, symStrings(prefix)}, "detail": f.Detail, "invocations": r.M, "returned": fmt.Sprint(r.Err), "invocation_times": fmt.Sprint(r.Times), "run": k + 1, "note": "a case whose last symbol ends the context is run up to 64 times: the retry loop's select between a zero wait and ctx.Done() is a random choice of the Go runtime"}}
 					res.Viol[f.Sig] = v
 				}
 				v.Count++
